@@ -152,7 +152,7 @@ def _analyze(fx, entries, assumptions=None, profile="dev", hooks=None, tag=None,
     res.order = topo
     # ---- pass 1: summaries (return values, may-write sets and post-states of `&mut` parameters)
     import modsets
-    summaries = {"#mods": modsets.compute(fx, topo, res.cyclic), "#posts": {}}
+    summaries = {"#mods": modsets.compute(fx, topo, res.cyclic), "#posts": {}, "#okposts": {}}
     for fid in topo:
         fn = fx.fns[fid]
         body = body_of(fn)
@@ -164,6 +164,12 @@ def _analyze(fx, entries, assumptions=None, profile="dev", hooks=None, tag=None,
             summaries[fid] = dict(it.ret_cells)
         if it.post_cells:
             summaries["#posts"][fid] = dict(it.post_cells)
+        if it.ok_posts:
+            # only what is tighter than the type's range or carries an upper-bound provenance is worth telling the caller
+            from absint import ty_range as _tr
+            keep = {k: v for k, v in it.ok_posts.items() if v[2] or (_tr(v[3] or "") and (v[0] > _tr(v[3])[0] or v[1] < _tr(v[3])[1]))}
+            if keep:
+                summaries["#okposts"][fid] = keep
     res.summaries = {k: v for k, v in summaries.items() if not k.startswith("#")}
     res.summaries_full = summaries
     # ---- pass 2: parameters, callers first
